@@ -229,6 +229,8 @@ func (v *inputFieldDefaultInjectionVisitor) jsonWalker(fieldType int, defaultVal
 				*finalValueReplaced = true
 			}
 		} else {
+			// nothing to inject into this item (null, scalar, mismatching kind), but it still occupies an index
+			i++
 			return
 		}
 		i++
